@@ -410,3 +410,230 @@ Section Concat.
       unfold wrap_res in ER. destruct (wrap _ z); [|discriminate]. cbn in ER. injection ER as <-. discriminate.
   Qed.
 End Concat.
+
+(* ------------------------------------------------------------------ 5. the four head branches *)
+
+Lemma mapM_Forall2_rel {A B} (f : A -> res B) (Rel : A -> B -> Prop) l ys :
+  mapM f l = Ok ys -> (forall x y, In x l -> f x = Ok y -> Rel x y) -> Forall2 Rel l ys.
+Proof.
+  revert ys. induction l as [|x r IH]; intros ys H HR; cbn in H.
+  - injection H as <-. constructor.
+  - destruct (f x) eqn:E; [|discriminate]. cbn in H. destruct (mapM f r) eqn:E2; [|discriminate].
+    cbn in H. injection H as <-. constructor; [apply HR; [now left|exact E]|].
+    apply IH; auto. intros x' y' Hin. apply HR. now right.
+Qed.
+
+Lemma skipn_nth_cons {A} (l : list A) i d : (i < List.length l)%nat -> skipn i l = nth i l d :: skipn (S i) l.
+Proof.
+  revert i. induction l as [|x r IH]; intros i H; [cbn in H; lia|].
+  destruct i; [reflexivity|]. cbn [skipn nth]. apply IH. cbn in H. lia.
+Qed.
+
+Lemma wrap_norm n z p : wrap n z = Some p -> p = (if z <? 0 then z + n else z) /\ 0 <= p < n.
+Proof.
+  intro H. pose proof (wrap_range _ _ _ H). split; [|assumption]. unfold wrap in H.
+  destruct ((0 <=? z) && (z <? n)) eqn:E; [injection H as <-; assert (E2 : (z <? 0) = false) by lia; now rewrite E2|].
+  destruct ((- n <=? z) && (z <? 0)) eqn:E2; [|discriminate]. injection H as <-.
+  assert (E3 : (z <? 0) = true) by lia. now rewrite E3.
+Qed.
+
+Section Branches.
+  Context (ps : list cpart) (fs : list nd) (T : list Z) (dt : Z) (tail : list aidx) (S : list sel).
+  Context (HP : Forall2 (part_ok T dt) ps fs).
+  Context (HT : List.length tail = List.length T).
+  Context (HS : mapM (fun p => resolve (fst p) (snd p)) (combine T tail) = Ok S).
+  Context (Hne : ps <> []).
+  Context (Hlen : Forall (fun p => 0 <= part_len p) ps).
+
+  Let lens := map part_len ps.
+  Let starts := starts_from 0 lens.
+  Let CH := List.concat (map (fun f => children (nd_body f)) fs).
+  Let total := zsum lens.
+  Let k := List.length ps.
+
+  Definition head_result (out : arr) (hs : sel) : Prop :=
+    a_dtype out = dt /\ a_nd out = mk_nd (take_shape (hs :: S)) (take (Node CH) (hs :: S)).
+
+  Let LN := lens_nonneg ps Hlen.
+  Lemma LE : lens <> [].
+  Proof. unfold lens. destruct ps; [congruence|discriminate]. Qed.
+
+  Lemma lens_len : List.length lens = k.
+  Proof. unfold lens, k. apply map_length. Qed.
+
+  Lemma starts_nth i : (i < k)%nat -> nth i starts 0 = bnd lens i.
+  Proof. intro H. unfold starts. rewrite starts_from_nth by (now rewrite lens_len). lia. Qed.
+
+  Lemma total_bnd : total = bnd lens k.
+  Proof. unfold total. rewrite <- lens_len. now rewrite bnd_all. Qed.
+
+  (* --- scalar head --- *)
+  Lemma head_scalar z out : c_head ps dt total S (AInt z) tail = Ok out ->
+    exists hs, resolve total (AInt z) = Ok hs /\ head_result out hs.
+  Proof.
+    cbn [c_head]. fold lens. fold starts.
+    set (z' := if z <? 0 then total + z else z).
+    destruct ((0 <=? z') && (z' <? total)) eqn:E; [|discriminate].
+    destruct (find_indexer_spec lens z' LN LE ltac:(lia)) as [I1 [I2 I3]].
+    set (ind := find_indexer starts z') in *. fold starts in I1, I2, I3. fold ind in I1, I2, I3.
+    set (pd := mk_cpart (mk_lazyidx [] [] [] 0) (Leaf 0)).
+    assert (Hi : (Z.to_nat ind < k)%nat) by (unfold zlen in I1; rewrite lens_len in I1; lia).
+    rewrite (py_nth_nonneg ps ind pd) by (unfold zlen, k in *; rewrite lens_len in I1; unfold k in I1; lia).
+    cbn [bind]. rewrite (py_nth_nonneg starts ind 0)
+      by (unfold zlen, starts; rewrite starts_from_length, lens_len; unfold zlen in I1; rewrite lens_len in I1; lia).
+    cbn [bind]. rewrite starts_nth by assumption. intro HG.
+    destruct (part_rows ps fs T dt tail S HP HT HS Hlen _ pd _ _ Hi HG) as [Pq [d [ER [HD [HN _]]]]].
+    fold lens in ER, HN. cbn [resolve] in ER. unfold wrap_res in ER.
+    destruct (wrap (nth (Z.to_nat ind) lens 0) (z' - bnd lens (Z.to_nat ind))) as [q|] eqn:W; [|discriminate].
+    cbn [bind] in ER. injection ER as <- <-.
+    assert (Hnn : 0 <= z' - bnd lens (Z.to_nat ind)) by lia.
+    destruct (wrap_nonneg _ _ _ Hnn W) as [-> _].
+    exists ([z'], true). split.
+    - cbn [resolve]. unfold wrap_res.
+      assert (W2 : wrap total z = Some z').
+      { clear -E. unfold wrap. subst z'. clearbody total. destruct (z <? 0) eqn:Ez; rewrite ?Ez in E.
+        - destruct ((0 <=? z) && (z <? total)) eqn:E1; [exfalso; lia|].
+          destruct (- total <=? z) eqn:E2; cbn [andb]; [f_equal; lia|exfalso; lia].
+        - destruct ((0 <=? z) && (z <? total)) eqn:E1; [reflexivity|exfalso; lia]. }
+      now rewrite W2.
+    - split; [exact HD|]. rewrite HN. fold CH. cbn [hd take_shape]. rewrite take_node. cbn [hd].
+      do 2 f_equal. lia.
+  Qed.
+
+  (* --- chunks of the slice and mask branches: rows of the concatenation at positions Pos j --- *)
+  Lemma chunks_rows (Pos : nat -> list Z) js chunks out :
+    Forall2 (fun j c => a_dtype c = dt /\ a_nd c = mk_nd (zlen (Pos j) :: take_shape S) (Node (map (row CH S) (Pos j)))) js chunks ->
+    concat_chunks dt (take_shape S) chunks = Ok out ->
+    out = mk_arr dt (mk_nd (zlen (flat_map Pos js) :: take_shape S) (Node (map (row CH S) (flat_map Pos js)))).
+  Proof.
+    intros HF HC. unfold concat_chunks in HC. destruct chunks as [|c0 cr] eqn:EC; [discriminate|]. rewrite <- EC in *.
+    injection HC as <-. clear EC c0 cr. f_equal. unfold cat.
+    assert (G : zsum (map (fun x => hd 0 (nd_shape (a_nd x))) chunks) = zlen (flat_map Pos js)
+                /\ flat_map children (map (fun x => nd_body (a_nd x)) chunks) = map (row CH S) (flat_map Pos js)).
+    { induction HF as [|j c js' cs' [_ H] _ IH]; [split; reflexivity|].
+      destruct IH as [IH1 IH2]. cbn [map flat_map zsum fold_right]. rewrite H. cbn [nd_shape nd_body hd children].
+      fold (zsum (map (fun x => hd 0 (nd_shape (a_nd x))) cs')). rewrite IH1, IH2, zlen_app, map_app. split; reflexivity. }
+    destruct G as [-> ->]. reflexivity.
+  Qed.
+End Branches.
+
+Lemma Forall2_map_l {A B C} (g : A -> C) (Rel : C -> B -> Prop) l ys :
+  Forall2 (fun x y => Rel (g x) y) l ys -> Forall2 Rel (map g l) ys.
+Proof. induction 1; cbn; constructor; auto. Qed.
+
+Lemma py_range_unit_seq : forall (n : nat) a, 0 <= a ->
+  map Z.to_nat (range_list a 1 n) = seq (Z.to_nat a) n.
+Proof.
+  induction n as [|n IH]; intros a Ha; [reflexivity|].
+  rewrite range_list_S. cbn [map seq]. f_equal. rewrite IH by lia. f_equal. lia.
+Qed.
+
+Section SliceBranch.
+  Context (ps : list cpart) (fs : list nd) (T : list Z) (dt : Z) (tail : list aidx) (S : list sel).
+  Context (HP : Forall2 (part_ok T dt) ps fs).
+  Context (HT : List.length tail = List.length T).
+  Context (HS : mapM (fun p => resolve (fst p) (snd p)) (combine T tail) = Ok S).
+  Context (Hne : ps <> []).
+  Context (Hlen : Forall (fun p => 0 <= part_len p) ps).
+
+  Let lens := map part_len ps.
+  Let starts := starts_from 0 lens.
+  Let CH := List.concat (map (fun f => children (nd_body f)) fs).
+  Let total := zsum lens.
+  Let k := List.length ps.
+  Let LN : Forall (fun h => 0 <= h) lens := lens_nonneg ps Hlen.
+
+  Context (start stop st : Z) (Hst : 0 < st) (Hstart : 0 <= start <= total) (Hstop : 0 <= stop <= total).
+
+  Let Pos (j : nat) : list Z := py_range (first_ge start st (bnd lens j)) (Z.min (bnd lens (Datatypes.S j)) stop) st.
+
+  Lemma telescope : forall n j, (j + n <= k)%nat ->
+    flat_map Pos (seq j n) ++ py_range (first_ge start st (bnd lens (j + n))) stop st
+    = py_range (first_ge start st (bnd lens j)) stop st.
+  Proof.
+    induction n as [|n IH]; intros j Hj.
+    - cbn [seq flat_map app]. now rewrite Nat.add_0_r.
+    - cbn [seq flat_map]. rewrite <- app_assoc.
+      replace (j + Datatypes.S n)%nat with (Datatypes.S j + n)%nat by lia. rewrite IH by lia.
+      unfold Pos.
+      assert (Hl : List.length lens = k) by (unfold lens, k; apply map_length).
+      pose proof (bnd_mono lens j LN ltac:(lia)) as Hm.
+      rewrite <- (first_ge_idem start st (bnd lens j) (bnd lens (Datatypes.S j)) Hst Hm).
+      symmetry. apply (py_range_split st stop (bnd lens (Datatypes.S j)) Hst
+                         (Z.to_nat (stop - first_ge start st (bnd lens j)))). lia.
+  Qed.
+
+  Lemma head_slice_chunks chunks out :
+    mapM (slice_chunk ps starts tail (take_shape S) start stop st)
+         (py_range (find_indexer starts start) (find_indexer starts stop + 1) 1) = Ok chunks ->
+    concat_chunks dt (take_shape S) chunks = Ok out ->
+    head_result fs dt S out (py_range start stop st, false).
+  Proof.
+    intros HM HC.
+    assert (LE : lens <> []) by (unfold lens; destruct ps; [congruence|discriminate]).
+    assert (Hl : List.length lens = k) by (unfold lens, k; apply map_length).
+    destruct (find_indexer_spec lens start LN LE ltac:(lia)) as [A1 [A2 A3]].
+    destruct (find_indexer_spec lens stop LN LE ltac:(lia)) as [B1 [B2 B3]].
+    fold starts in A1, A2, A3, B1, B2, B3.
+    set (ia := find_indexer starts start) in *. set (ib := find_indexer starts stop) in *.
+    unfold zlen in A1, B1. rewrite Hl in A1, B1.
+    destruct (Z_lt_ge_dec (ib + 1) ia) as [Hlt|Hge].
+    { rewrite py_range_nil in HM by lia. cbn in HM. injection HM as <-. discriminate. }
+    set (pd := mk_cpart (mk_lazyidx [] [] [] 0) (Leaf 0)).
+    (* every chunk is the block of rows Pos j of the concatenation *)
+    assert (HF : Forall2 (fun j c => a_dtype c = dt /\ a_nd c = mk_nd (zlen (Pos j) :: take_shape S) (Node (map (row CH S) (Pos j))))
+                         (map Z.to_nat (py_range ia (ib + 1) 1)) chunks).
+    { apply Forall2_map_l. eapply mapM_Forall2_rel; [exact HM|]. intros ind c Hin Hc.
+      destruct (py_range_bounds ia (ib + 1) 1 ind ltac:(lia) Hin) as [Bd _]. specialize (Bd ltac:(lia)).
+      set (j := Z.to_nat ind).
+      assert (Hj : (j < k)%nat) by (unfold j; lia).
+      unfold slice_chunk in Hc.
+      rewrite (py_nth_nonneg ps ind pd) in Hc by (unfold zlen; fold k; lia). cbn [bind] in Hc.
+      rewrite (py_nth_nonneg starts ind 0) in Hc
+        by (unfold zlen, starts; rewrite starts_from_length, Hl; lia). cbn [bind] in Hc.
+      fold j in Hc.
+      assert (Hoff : nth j starts 0 = bnd lens j).
+      { unfold starts. rewrite starts_from_nth by (rewrite Hl; exact Hj). lia. }
+      rewrite Hoff in Hc.
+      set (off := bnd lens j) in *.
+      set (cs := if off <=? start then start - off else (start - off) mod st) in *.
+      destruct (part_get (nth j ps pd) _) as [sub|] eqn:EG; [|discriminate]. cbn [bind] in Hc.
+      unfold reshape_chunk in Hc. destruct (existsb _ _); [discriminate|]. injection Hc as <-.
+      destruct (part_rows ps fs T dt tail S HP HT HS Hlen _ pd _ _ Hj EG) as [Pq [d [ER [HD [HN _]]]]].
+      fold lens in ER, HN. fold CH in HN. fold off in HN.
+      cbn [resolve] in ER. destruct (slice_positions _ _ _ _) as [Pq'|] eqn:SP; [|discriminate].
+      injection ER as <- <-.
+      assert (Hcs : 0 <= cs) by (unfold cs; destruct (off <=? start) eqn:E; [lia|apply Z.mod_pos_bound; lia]).
+      assert (Hoffs : off <= stop).
+      { unfold off. pose proof (bnd_mono_le lens j (Z.to_nat ib) LN ltac:(unfold j; lia)). lia. }
+      assert (Hh : 0 <= nth j lens 0).
+      { rewrite Forall_forall in LN. apply LN. apply nth_In. rewrite Hl. exact Hj. }
+      pose proof (local_slice_positions off _ cs stop st Pq' Hst Hh Hcs ltac:(lia) SP) as LP.
+      assert (Hfg : off + cs = first_ge start st off).
+      { unfold cs, first_ge. destruct (off <=? start); lia. }
+      assert (HS1 : off + nth j lens 0 = bnd lens (Datatypes.S j)) by (unfold off; rewrite bnd_S by (rewrite Hl; exact Hj); lia).
+      rewrite Hfg, HS1 in LP.
+      assert (LP' : map (fun q => off + q) Pq' = Pos j) by (unfold Pos; fold off; exact LP).
+      split; [exact HD|]. rewrite HN. cbn [take_shape]. rewrite LP'.
+      f_equal. f_equal. rewrite <- LP'. now rewrite zlen_map. }
+    pose proof (chunks_rows fs dt S Pos _ _ _ HF HC) as ->.
+    (* the blocks tile the global progression *)
+    assert (HJ : map Z.to_nat (py_range ia (ib + 1) 1) = seq (Z.to_nat ia) (Z.to_nat (ib + 1 - ia))).
+    { rewrite py_range_unit by lia. apply py_range_unit_seq. lia. }
+    rewrite HJ.
+    pose proof (telescope (Z.to_nat (ib + 1 - ia)) (Z.to_nat ia) ltac:(lia)) as TL.
+    replace (Z.to_nat ia + Z.to_nat (ib + 1 - ia))%nat with (Datatypes.S (Z.to_nat ib)) in TL by lia.
+    assert (Hrest : py_range (first_ge start st (bnd lens (Datatypes.S (Z.to_nat ib)))) stop st = []).
+    { destruct (first_ge_ge start st (bnd lens (Datatypes.S (Z.to_nat ib))) Hst) as [G1 G2].
+      apply py_range_nil; [exact Hst|].
+      destruct (Z_lt_ge_dec (ib + 1) (Z.of_nat k)) as [Hin|Hlast].
+      - specialize (B3 ltac:(unfold zlen; rewrite Hl; lia)). lia.
+      - assert (EK : Datatypes.S (Z.to_nat ib) = k) by lia. rewrite EK in *.
+        assert (bnd lens k = total) by (unfold total; rewrite <- Hl; apply bnd_all). lia. }
+    rewrite Hrest, app_nil_r in TL.
+    assert (Hhead : first_ge start st (bnd lens (Z.to_nat ia)) = start).
+    { unfold first_ge. assert (E : (bnd lens (Z.to_nat ia) <=? start) = true) by lia. now rewrite E. }
+    rewrite Hhead in TL. rewrite TL.
+    split; [reflexivity|]. cbn [a_nd take_shape]. rewrite take_node. reflexivity.
+  Qed.
+End SliceBranch.
